@@ -2,7 +2,7 @@
    Proofs/OracleExact.v). *)
 From Coq Require Import List Arith Bool.
 From Coq Require Import Permutation.
-From DS Require Import Model.ADD Spec.Count Model.Oracle Proofs.OracleProofs Proofs.OracleExact Proofs.OracleValid Proofs.CompileValid.
+From DS Require Import Model.ADD Spec.Count Model.Oracle Proofs.OracleProofs Proofs.OracleExact Proofs.OracleValid Proofs.CompileValid Proofs.CompileGraph.
 Import ListNotations.
 
 (* the counts of the specification over all tallies always add up to 2^(units-1) *)
@@ -60,6 +60,22 @@ Theorem C09_compile_exact : forall p comps target t1 t2,
   oracle_query p (compile_add (p_type p) comps) (map (row_locs 0 comps) (p_rows p)) target t1 t2 = Some (count_spec p target t1 t2).
 Proof. exact oracle_compile_exact. Qed.
 
+(* compile() INCLUDING its graph step (Model/Oracle.v select_leaves / build_hints): the leaf units are the greedy maximal
+   independent set of the "appear together in a row" graph visited in `order`, the components are `components`.  For EVERY
+   visiting order that is a permutation of the units (the code: np.argsort(degrees) -- whatever the sort does with ties) and
+   EVERY partition of the units into non-empty parts such that each (non-empty, duplicate-free) row lies inside one part (the
+   code: scipy's connected components -- connectivity is not even needed) the derived structure is admissible and the oracle
+   over the compiled diagram is exact.  graph_ok is that boolean condition; nothing about scipy / numpy is assumed beyond it,
+   and it is evaluated inside Coq on every instance. *)
+Theorem C09_graph_hints_ok : forall n rows order components,
+  graph_ok n rows order components = true -> hints_ok n rows (build_hints n rows order components) = true.
+Proof. exact graph_hints_ok. Qed.
+Theorem C09_compile_graph_exact : forall p order components target t1 t2,
+  graph_ok (p_units p) (p_rows p) order components = true -> 2 <= p_units p -> target < p_units p ->
+  let comps := build_hints (p_units p) (p_rows p) order components in
+  oracle_query p (compile_add (p_type p) comps) (map (row_locs 0 comps) (p_rows p)) target t1 t2 = Some (count_spec p target t1 t2).
+Proof. exact oracle_graph_exact. Qed.
+
 (* compile() in the chain case (every row needs exactly one unit: one-unit-per-row and map/fork pipelines) produces
    such a diagram: the oracle is exact with no further hypothesis *)
 Theorem C09_oracle_chain_exact : forall p target t1 t2,
@@ -80,3 +96,5 @@ Print Assumptions C09_oracle_chain_exact.
 Print Assumptions C09_oracle_exact_any_order.
 Print Assumptions C09_oracle_exact_validated.
 Print Assumptions C09_compile_exact.
+Print Assumptions C09_graph_hints_ok.
+Print Assumptions C09_compile_graph_exact.
